@@ -118,9 +118,9 @@ Qed.
 Lemma norm2_ext a b : nth 0 a 0 = nth 0 b 0 -> nth 1 a 0 = nth 1 b 0 -> norm2 a = norm2 b.
 Proof. unfold norm2. intros -> ->. reflexivity. Qed.
 
-Lemma coins_le_norm2 a b : (forall k, nth k a 0 <= nth k b 0) -> coins_le (norm2 a) (norm2 b) = true.
+Lemma coins_le_norm2 a b : (forall k, (k < 2)%nat -> nth k a 0 <= nth k b 0) -> coins_le (norm2 a) (norm2 b) = true.
 Proof.
-  intro H. apply coins_le_iff. intro k. rewrite !nth_norm2. destruct (Nat.ltb k 2); [apply H | lia].
+  intro H. apply coins_le_iff. intro k. rewrite !nth_norm2. destruct (Nat.ltb k 2) eqn:E; [apply H; apply Nat.ltb_lt; exact E | lia].
 Qed.
 
 (* ---------------------------------------------------------------- weights *)
@@ -228,15 +228,15 @@ Lemma period_update_inv p st s :
   wf st -> ids_nodup st -> inv s -> inv (fst (period_update p st s)).
 Proof.
   intros Hw Hn [Hr [Hs Hm]]. rewrite (period_update_shape p st s Hw Hn). cbv zeta.
-  destruct (spec_total_weight p st =? 0) eqn:EW; simpl.
-  - split; [exact Hr|]. split; [exact Hs|]. unfold exp_miss. apply exp_miss_f_sorted. exact Hm.
+  destruct (spec_total_weight p st =? 0) eqn:EW; cbn [fst snd].
+  - unfold inv. cbn [os_rewards os_balance os_miss]. split; [exact Hr|]. split; [exact Hs|]. unfold exp_miss. apply exp_miss_f_sorted. exact Hm.
   - apply Z.eqb_neq in EW.
     assert (Htot : forall k, nth k (coins_sum (map snd (mk_paid (fst (gather (os_rewards s))) (spec_total_weight p st) (tally_all p st)))) 0
                              <= nth k (fst (gather (os_rewards s))) 0).
     { intro k. rewrite nth_coins_sum. apply paid_total_le_pot; assumption. }
     assert (Hle : coins_le (coins_sum (map snd (mk_paid (fst (gather (os_rewards s))) (spec_total_weight p st) (tally_all p st)))) (os_balance s) = true).
     { apply coins_le_iff. intro k. specialize (Htot k). pose proof (pot_le_owed k _ Hr). specialize (Hs k). lia. }
-    rewrite Hle. split; [apply rewards_ok_gather; exact Hr|]. split.
+    rewrite Hle. unfold inv. cbn [os_rewards os_balance os_miss]. split; [apply rewards_ok_gather; exact Hr|]. split.
     + intro k. rewrite nth_owed_gather, nth_coins_sub. specialize (Htot k). specialize (Hs k). lia.
     + unfold exp_miss. apply exp_miss_f_sorted. exact Hm.
 Qed.
@@ -333,22 +333,14 @@ Proof.
         split; apply portion_fair; try lia; try (apply spec_weight_nonneg; exact Hw); apply pot_nonneg; exact Hr.
       + intros x Hx. assert (Hk : In (fst x) (map fst (canon_paid paid))) by (apply in_map; exact Hx).
         apply canon_paid_keys in Hk. unfold paid in Hk. rewrite mk_paid_keys, tally_all_keys in Hk. exact Hk.
-      + apply coins_le_norm2. intro k. rewrite nth_coins_sum.
-        destruct (Nat.ltb k 2) eqn:Ek.
-        * apply Nat.ltb_lt in Ek. rewrite colsum_canon by exact Ek. specialize (Htot k). unfold total in Htot. rewrite nth_coins_sum in Htot. exact Htot.
-        * (* only the first two denoms are observed *)
-          apply Nat.ltb_ge in Ek.
-          assert (G : forall l, colsum k (map snd (canon_paid l)) = 0).
-          { intro l. unfold canon_paid. induction l as [|[i c] l IH]; simpl; [reflexivity|].
-            destruct (nonzero2 c); simpl; [|exact IH]. rewrite colsum_insert. simpl. fold (canon_paid l) in *.
-            rewrite nth_norm2. assert (E : Nat.ltb k 2 = false) by (apply Nat.ltb_ge; exact Ek). rewrite E.
-            unfold canon_paid in IH. rewrite IH. reflexivity. }
-          rewrite G. apply pot_nonneg. exact Hr.
+      + apply coins_le_norm2. intros k Ek. rewrite nth_coins_sum.
+        rewrite colsum_canon by exact Ek. specialize (Htot k). unfold total in Htot. rewrite nth_coins_sum in Htot. exact Htot.
     - apply norm2_ext; rewrite !nth_norm2; simpl Nat.ltb; cbv iota;
         rewrite nth_coins_sub, !nth_norm2; simpl Nat.ltb; cbv iota;
         rewrite nth_coins_sum, colsum_canon by lia; apply Hbal.
-    - unfold solvent. simpl. apply coins_le_iff. intro k. rewrite !nth_norm2.
-      destruct (Nat.ltb k 2); [apply Hs1 | lia]. }
+    - unfold solvent. cbn [obs_of so_rewards so_balance os_rewards os_balance].
+      apply coins_le_norm2. intros k Hk. rewrite nth_norm2.
+      assert (E : Nat.ltb k 2 = true) by (apply Nat.ltb_lt; exact Hk). rewrite E. apply Hs1. }
   destruct win.
   - simpl. eexists. eexists. split; [reflexivity|].
     destruct (Hcommon []) as [C1 [C2 C3]].
@@ -378,8 +370,9 @@ Qed.
 
 Lemma solvent_of_inv s e : inv s -> solvent (obs_of s e).
 Proof.
-  intros [_ [Hs _]]. unfold solvent. simpl. apply coins_le_iff. intro k. rewrite !nth_norm2.
-  destruct (Nat.ltb k 2); [apply Hs | lia].
+  intros [_ [Hs _]]. unfold solvent. cbn [obs_of so_rewards so_balance os_rewards os_balance].
+  apply coins_le_norm2. intros k Hk. rewrite nth_norm2.
+  assert (E : Nat.ltb k 2 = true) by (apply Nat.ltb_lt; exact Hk). rewrite E. apply Hs.
 Qed.
 
 (** one step of the model: never panics inside the domain, satisfies the property of the step with
@@ -391,7 +384,7 @@ Theorem step_P q s e0 o :
   | ROk s' e => P_step q (obs_of s e0) o (obs_of s' e) /\ inv s'
   end.
 Proof.
-  intros Hi Hw. destruct o as [st svs h | coins n |]; simpl.
+  intros Hi Hw. destruct o as [st svs h | coins n |]; cbn [step P_step].
   - destruct Hw as [Hw Hn].
     destruct (dom12 q st) eqn:Ed.
     + destruct (end_block12_P q s e0 st svs h Hw Hn Hi Ed) as [s' [e [E HP]]]. rewrite E.
@@ -402,7 +395,7 @@ Proof.
     split; [|exact Hi'].
     split; [reflexivity|]. split; [reflexivity|]. split; [reflexivity|].
     split; [|split; [reflexivity | apply solvent_of_inv; exact Hi']].
-    simpl. apply norm2_ext; rewrite !nth_norm2; simpl Nat.ltb; cbv iota; rewrite !nth_coins_add, !nth_norm2; reflexivity.
+    cbn [obs_of so_balance os_balance]. apply norm2_ext; repeat (rewrite ?nth_norm2, ?nth_coins_add); reflexivity.
   - split; [|exact Hi].
     split; [reflexivity|]. split; [reflexivity|]. split; [reflexivity|].
     split; [reflexivity|]. split; [reflexivity | apply solvent_of_inv; exact Hi].
